@@ -194,12 +194,10 @@ contract(
             inv=MAIN_INV,
             transition=MAIN_STEP,
             cut=["E1-parent-and-bounds", "E2-abs-start", "E2-length", "E2-parent-lower-view", "E2-context-value-is-the-text-covered"],
-            hints=["full-slice: lower(old(node).value)[0 : len(lower(old(node).value))] == lower(old(node).value)"],
+            hints=["full-slice: x=lower(old(node).value)"],
             latch_hints=[
-                "lower-commutes-with-slice: implies(hit.parent is not None and 0 <= hit.start <= hit.end <= len(hit.parent.value), "
-                "lower(hit.parent.value[hit.start : hit.end]) == lower(hit.parent.value)[hit.start : hit.end])",
-                "slice-of-slice: implies(hit.parent is not None and 0 <= hit.start <= hit.end <= old.EXTK[pk()] - old.ABSK[pk()] and 0 <= old.ABSK[pk()] <= old.EXTK[pk()] <= len(old(node).value), "
-                "lower(old(node).value)[old.ABSK[pk()] : old.EXTK[pk()]][hit.start : hit.end] == lower(old(node).value)[old.ABSK[pk()] + hit.start : old.ABSK[pk()] + hit.end])",
+                "lower-commutes-with-slice: x=hit.parent.value; s=hit.start; e=hit.end",
+                "slice-of-slice: x=lower(old(node).value); a=old.ABSK[pk()]; b=old.EXTK[pk()]; s=hit.start; e=hit.end",
             ],
         ),
         3: Loop(inv=POP_INV, variant="len(stack)"),
